@@ -108,6 +108,10 @@ class NeedDup(Exception):
     pass
 
 
+class _NoEffect(Exception):
+    pass
+
+
 SENTINEL = "(*!FAIL!*)"
 
 
@@ -148,6 +152,9 @@ class Engine:
         self.bound = []          # log of (re)bound Gallina names (to find loop-carried variables)
         self.fresh = 0
         self.calls = {}
+        self.aux = []            # auxiliary definitions (loop bodies) to emit before the function
+        self.nloops = 0
+        self.cur_name = "gen"
 
     # ------------------------------------------------------------------ helpers
     def newname(self, stem):
@@ -164,7 +171,7 @@ class Engine:
 
     def let(self, W, env, name, term, ty, key=None):
         """bind python local `name` (or cell when key starts with '$')"""
-        if ty != "none":                 # a value specialised to None needs no binding
+        if ty != "none" and term != "":  # a value specialised to None / without a term needs no binding
             W.append(("let", name, term))
             self.bound.append(name)
         env[key if key is not None else name] = ty
@@ -192,7 +199,7 @@ class Engine:
             fail("constant %r" % (c,), e)
         if isinstance(e, ast.Name):
             if e.id in env:
-                return V(gname(e.id), env[e.id])
+                return V(gname(e.id), env[e.id], py=env.get("@py:" + e.id))
             fail("unbound name " + e.id, e)
         if isinstance(e, ast.Attribute):
             if isinstance(e.value, ast.Name) and e.value.id == "self":
@@ -405,6 +412,10 @@ class Engine:
         fail("statement", s)
 
     def assign_name(self, name, v, s, env, W):
+        if v.ty == "tuple" and all(p.ty == "str" for p in v.py):
+            env[name] = "tuple"                  # a tuple of string constants: no Gallina value
+            env["@py:" + name] = v.py
+            return
         if v.ty == "tuple":
             fail("tuple assigned to a single name", s)
         self.let(W, env, gname(name), v.t, v.ty, key=name)
@@ -460,7 +471,7 @@ class Engine:
         for k in env:
             if k.startswith("@"):
                 continue
-            vis[k[1:] if k.startswith("$") else gname(k)] = k
+            vis[k[1:] if k[0] in "$#" else gname(k)] = k      # $cell, #constructor parameter, local
         out = []
         for n in bound:
             if n in vis and n not in out:
@@ -476,8 +487,9 @@ class Engine:
             self.block(s.body, dict(env_t), lambda e: "")
             self.block(s.orelse, dict(env_e), lambda e: "")
             muts, vis = self.carried(env, self.bound)
-            if not muts:
-                fail("if statement without effect", s)
+            if not muts:                         # e.g. `if update_params: warn(...)`: no effect
+                noeffect = True
+                raise _NoEffect()
             tup = muts[0] if len(muts) == 1 else "(%s)" % ", ".join(muts)
             pat = muts[0] if len(muts) == 1 else "'(%s)" % ", ".join(muts)
             ends = []
@@ -487,6 +499,11 @@ class Engine:
                 return tup
             a = self.block(s.body, dict(env_t), fin_b)
             b = self.block(s.orelse, dict(env_e), fin_b)
+        except _NoEffect:
+            self.failtext.pop()
+            self.bound = saved_bound
+            self.failtext.append(None)           # (popped again by the finally clause)
+            return self.block_after_noeffect(rest, env, fin)
         finally:
             self.failtext.pop()
             self.bound = saved_bound
@@ -500,6 +517,14 @@ class Engine:
         self.merge_meta(env, et, ee, s)
         return "let %s :=\n%s in\n%s" % (pat, self.choose(c, paren(a), paren(b)),
                                         self.block(rest, env, fin))
+
+    def block_after_noeffect(self, rest, env, fin):
+        # translated outside the NeedDup guard of if_merge: temporarily drop the guard
+        guard = self.failtext.pop()
+        try:
+            return self.block(rest, env, fin)
+        finally:
+            self.failtext.append(guard)
 
     def merge_meta(self, env, et, ee, s):
         """reconcile '@' entries of the branch environments (subclasses with aliases override)"""
@@ -548,7 +573,7 @@ class Engine:
         target_names = {gname(n.id) for n in ast.walk(s.target) if isinstance(n, ast.Name)}
         muts = [m for m in muts if m not in target_names]
         acc = list(muts)
-        collect = self.loop_collects(src, ends[0] if ends else env, s) if comp is None else "comp"
+        collect = self.loop_collects(src, ends[0] if ends else env, s, bound1) if comp is None else "comp"
         if collect:
             acc.append("out_")
         if may_fail:
@@ -585,7 +610,27 @@ class Engine:
         if may_fail:
             t2 = "if ok_ then\n%s\nelse acc_" % t2
         init = tup(muts + (["[]"] if collect else []) + (["true"] if may_fail else []))
-        fn = "(fun acc_ it_ =>\n let %s := acc_ in\n%s)" % (pat, paren(t2))
+        tys = [self.coqty((ends2[0] if ends2 else env)[vis[n]]) for n in muts]
+        if collect == "comp":
+            tys.append("list (%s)" % self.coqty(ends2[0]["@comp"].ty))
+        elif collect:
+            tys.append("list (%s)" % self.coqty(src.get("oty", src["ety"])))
+        if may_fail:
+            tys.append("bool")
+        # the loop body becomes a definition of its own (so that the bridge can name it); its
+        # parameters are the visible variables it mentions and does not carry
+        import re as _re
+        words = _re.findall(r"[A-Za-z_][A-Za-z0-9_']*", t2)
+        free = []                # in order of first occurrence: stable under renaming of locals
+        for n in words:
+            if n in vis and n not in acc and n not in free and env.get(vis[n]) not in (None, "none"):
+                free.append(n)
+        self.nloops += 1
+        name = "%s_loop%d" % (self.cur_name, self.nloops)
+        self.aux.append("Definition %s %s (acc_ : %s) (it_ : %s) :=\n let %s := acc_ in\n%s." % (
+            name, " ".join("(%s : %s)" % (n, self.coqty(env[vis[n]])) for n in free),
+            " * ".join("(%s)" % t for t in tys), self.coqty(src["ety"]), pat, paren(t2)))
+        fn = "(%s)" % " ".join([name] + free)
         W.append(("let", pat, "fold_left %s %s %s" % (fn, src["list"], init)))
         for n in muts:
             self.bound.append(n)
@@ -597,7 +642,16 @@ class Engine:
             self.loop_writeback(src, env, W, s)
         return None
 
-    def loop_collects(self, src, env_end, s):
+    COQTY = {}
+
+    def coqty(self, ty):
+        if ty.startswith("list:"):
+            return "list (%s)" % self.coqty(ty[5:])
+        if ty not in self.COQTY:
+            fail("no Gallina type for values of type %s" % ty)
+        return self.COQTY[ty]
+
+    def loop_collects(self, src, env_end, s, bound):
         """Gallina term of the element to collect per iteration (objects mutated in place), or None"""
         return None
 
